@@ -189,6 +189,9 @@ func (p *pool) worker(wid int, wg *sync.WaitGroup) {
 			m.Unwind = h.Meta.Unwind
 			m.MaxDepth = h.Meta.Depth
 			m.SplitBounds = h.Meta.Split
+			if h.Meta.Spin != "" && strings.HasPrefix(h.Meta.Spin, p.prop+".") {
+				m.SpinID = h.Meta.Spin
+			}
 			m.Harness = h.Fn.Pkg
 			for _, sp := range h.Group.SSAPkgs {
 				m.OwnPkgs[sp] = true
@@ -558,7 +561,7 @@ func cmdCheck(args []string) int {
 		// violations
 		sort.Slice(sh.Violations, func(i, j int) bool { return sh.Violations[i].ID < sh.Violations[j].ID })
 		for _, v := range sh.Violations {
-			if v.Kind == "assert" && !strings.HasPrefix(v.ID, prop+".") {
+			if (v.Kind == "assert" || v.Kind == "spin") && !strings.HasPrefix(v.ID, prop+".") {
 				continue // belongs to another property's check
 			}
 			ce := CEFile{Property: prop, Group: h.Group.Name, Pkg: h.Meta.Pkg, Harness: v.Harness, ID: v.ID, Kind: v.Kind, Msg: v.Msg, Where: v.Where, Tags: v.Tags, Tier: *tier, RepoHead: repoHead, Stream: v.Stream}
@@ -581,6 +584,9 @@ func cmdCheck(args []string) int {
 				case "panic":
 					reproduced = o.Status == "panic"
 					detail = fmt.Sprintf("native status=%s panic=%q", o.Status, o.Panic)
+				case "spin":
+					reproduced = o.Status == "hang"
+					detail = fmt.Sprintf("native status=%s (the native run is killed after 20 s)", o.Status)
 				}
 			}
 			if !reproduced {
@@ -724,6 +730,9 @@ func validateOne(native *Native, h *HarnessRun, tier string, tierN int, seed int
 			h.mu.Unlock()
 			return
 		}
+		if o.Status == "hang" {
+			return // a hanging native run is not a trace (a non-progress defect shows up as a spin violation)
+		}
 		if o.Status != "assume" && o.Status != "mismatch" {
 			break
 		}
@@ -813,7 +822,7 @@ func cmdReplay(args []string) int {
 		for _, r := range compactStream(ce.Stream) {
 			fmt.Println("   ", r)
 		}
-		if (ce.Kind == "assert" && has(o.Failed, ce.ID)) || (ce.Kind == "panic" && o.Status == "panic") {
+		if (ce.Kind == "assert" && has(o.Failed, ce.ID)) || (ce.Kind == "panic" && o.Status == "panic") || (ce.Kind == "spin" && o.Status == "hang") {
 			fmt.Println("REPRODUCED")
 			return 1
 		}
